@@ -94,7 +94,9 @@ def strat_plots(draw, tier="quick"):
     return {"type": t, "specs": specs, "panel": panel, "asym": asym, "separate": draw(st.booleans()) if n_fits > 1 else False, "x_log": draw(st.sampled_from([False, False, True])),
             "y_log": draw(st.sampled_from([False, False, False, True])),
             # plot again with the *same* Plot object after the fits changed (one more parameter fixed where it is, fitted again)
-            "replot": draw(st.sampled_from([False, False, True]))}
+            "replot": draw(st.sampled_from([False, False, True])),
+            # several xy fits of the same model to different data, built around ONE wrapped model function object
+            "share_model": draw(st.sampled_from([False, False, True])) if (t == "xy" and n_fits > 1) else False}
 
 
 # ---------------------------------------------------------------------------------------------------
@@ -518,12 +520,24 @@ def run_plots(case):
 
     t = case["type"]
     specs = [dict(s, dea="nonlinear") for s in case["specs"]]
+    shared_mf = None
+    if case.get("share_model") and t == "xy" and len(specs) > 1 and specs[0]["cost"] not in ("nll", "nllr"):
+        import copy
+
+        base = specs[0]
+        for j in range(1, len(specs)):
+            sp = copy.deepcopy(base)
+            sp["minimizer"] = specs[j]["minimizer"]
+            shift = np.resize([0.9, -0.7, 0.4, -1.1, 0.6, -0.2, 1.0, -0.5], len(sp["y"])) * sp["sigma"] * (1.0 + j)
+            sp["y"] = [float(v + d) for v, d in zip(sp["y"], shift)]
+            specs[j] = sp
+        shared_mf = _k("kafe2.fit._base").ModelFunctionBase(fs.make_model_function(base))
     fits = []
     for spec in specs:
         tb = spec["truth"]
         spec["fixed"] = {nm: (tb[nm] if v is None else v) for nm, v in spec["fixed"].items()}
         with guard(f"build[{t}]"):
-            fit = fs.build(spec)
+            fit = fs.build(spec, model_function=shared_mf)
         try:
             fit.do_fit(asymmetric_parameter_errors=case["asym"])
         except Exception:
@@ -610,7 +624,7 @@ def run_plots(case):
         plt.close("all")
     model_only = any(s["sources"] and all(s_["ref"] == "model" for s_ in s["sources"] if s_.get("enabled", True)) for s in specs)
     labels = {t, case["panel"]} | ({"model_sources_only"} if model_only else set()) | ({"several_fits"} if len(fits) > 1 else set()) | ({"separate"} if case["separate"] else set()) | ({"x_log"} if x_log else set()) | \
-        ({"y_log"} if y_log else set()) | ({"asym"} if case["asym"] else set()) | ({"poisson"} if any(e_["poisson"] for e_ in exps) else set()) | ({"plotted_again_after_refit"} if replotted else set())
+        ({"y_log"} if y_log else set()) | ({"asym"} if case["asym"] else set()) | ({"poisson"} if any(e_["poisson"] for e_ in exps) else set()) | ({"plotted_again_after_refit"} if replotted else set()) | ({"fits_share_one_model_function_object"} if shared_mf is not None else set())
     nt = (case["panel"] != "none" or len(fits) > 1 or case["asym"] or x_log or y_log or any(e_["poisson"] for e_ in exps) or any(s["fixed"] for s in specs)
           or any(s_.get("axis") == "x" or s_["ref"] == "model" or s_["relative"] for s in specs for s_ in s["sources"]))
     return {"nontrivial": bool(nt), "labels": sorted(labels)}
